@@ -15,7 +15,13 @@ def make_case_for(prop_number, profile=None):
         pf = dict(profile or {})
         if tier == "thorough":
             pf.setdefault("steps", (3, 60))
-        return {"kind": "generated", "spec": gen.gen_spec(rng, pf)}
+        pf.setdefault("p_targetable", 0.5)
+        spec = gen.gen_spec(rng, pf)
+        # about a third of the models run with a generated program set (program-driven rates, numbers and junction
+        # proportions, start/stop years on and off the grid, overwrites); drawn from a stream of its own
+        rng2 = gen.rng_for(seed, prop_number, 500000 + index)
+        ps = gen.gen_progspec(rng2, spec) if rng2.random() < 0.35 else None
+        return {"kind": "generated", "spec": spec, "progspec": ps}
 
     return make_case
 
